@@ -3,6 +3,7 @@ package spec
 import (
 	"fmt"
 	"math/rand"
+	"regexp"
 	"sort"
 	"strings"
 )
@@ -120,7 +121,11 @@ func (s *Spec) EmitWire(r *rand.Rand, extraArg bool) map[string]string {
 				n = len(elems) - i
 			}
 			chunk := elems[i : i+n]
-			switch k := r.Intn(10); {
+			k := r.Intn(10)
+			if s.WireAllInSets {
+				k = 1
+			}
+			switch {
 			case k < 3:
 				setSeq++
 				name := fmt.Sprintf("%sSet%d", in.Name, setSeq)
@@ -167,7 +172,24 @@ func (s *Spec) EmitWire(r *rand.Rand, extraArg bool) map[string]string {
 	}
 	files["wire.go"] = hdr(inj.String(), true) + inj.String()
 	if sets.Len() > 0 {
-		files["wire_sets.go"] = hdr(sets.String(), false) + sets.String()
+		body := sets.String()
+		h := hdr(body, false)
+		// the second wire file may import the same sibling packages under other aliases
+		for _, e := range s.ExtPkgs {
+			if r.Intn(2) != 0 && !s.WireAltAliases {
+				continue
+			}
+			cur := s.importName(e.Dir)
+			alt := "w" + strings.ReplaceAll(e.Dir, "/", "")
+			re := regexp.MustCompile(`(^|[^A-Za-z0-9_.])` + regexp.QuoteMeta(cur) + `\.`)
+			if !re.MatchString(body) {
+				continue
+			}
+			body = re.ReplaceAllString(body, "${1}"+alt+".")
+			path := fmt.Sprintf("%q", s.progPath()+"/"+e.Dir)
+			h = strings.Replace(h, s.extImport(e), "\t"+alt+" "+path+"\n", 1)
+		}
+		files["wire_sets.go"] = h + body
 	}
 	if extraArg {
 		files["types.go"] += "\ntype UnusedInjectorArg struct{ n int }\n"
